@@ -258,6 +258,15 @@ func (e *Enc) applyContract(fr *Frame, c *Contract, key string, args []Term, arg
 		e.assume(reach, g)
 	}
 	pre := st.clone()
+	var pureCond Term
+	if c.PureIf != nil {
+		pc, err := env.evalBool(c.PureIf)
+		if err != nil {
+			e.problem("contract %s pureif: %v", key, err)
+		} else {
+			pureCond = e.def("pureif", pc)
+		}
+	}
 	if c.ModAll {
 		e.havocAll(st)
 	} else {
@@ -266,13 +275,18 @@ func (e *Enc) applyContract(fr *Frame, c *Contract, key string, args []Term, arg
 				e.problem("contract %s modifies %s: %v", key, m, err)
 			}
 		}
-		if !c.Pure {
-			// may allocate
-			a := e.heapGet(st, e.allocKey())
-			na := e.fresh("alloc", SInt)
-			e.assume(tTrue, T(SBool, "(>= %s %s)", na.S, a.S))
-			st.heaps["$alloc"] = na
-		}
+	}
+	if pureCond.S != "" {
+		// conditional frame: under pureCond nothing is modified
+		m := e.mergeStates([]Term{pureCond, not(pureCond)}, []*State{pre, st})
+		st.heaps, st.base = m.heaps, m.base
+	}
+	if !c.Pure {
+		// may allocate
+		a := e.heapGet(st, e.allocKey())
+		na := e.fresh("alloc", SInt)
+		e.assume(tTrue, T(SBool, "(>= %s %s)", na.S, a.S))
+		st.heaps["$alloc"] = na
 	}
 	rs := e.freshResults("c_"+mangle(short), sig, st, reach)
 	post := &CEnv{e: e, vars: map[string]TT{}, cur: st, old: pre, pkg: c.Pkg, guard: reach}
@@ -394,6 +408,8 @@ func (e *Enc) appendOp(fr *Frame, v *ssa.Call, cc *ssa.CallCommon, st *State, re
 	fresh := e.allocRef(st, reach)
 	newCap := e.fresh("appcap", SInt)
 	e.assume(tTrue, T(SBool, "(>= %s %s)", newCap.S, newLen.S))
+	// growth beyond the runtime's maximum allocation is an out-of-memory abort, excluded by "allocation never fails"
+	e.assume(tTrue, T(SBool, "(<= %s %d)", newCap.S, maxExisting(el)))
 	dstArr := e.def("apparr", ite(fits, T(SInt, "(s_arr %s)", s.S), fresh))
 	dstOff := e.def("appoff", ite(fits, T(SInt, "(s_off %s)", s.S), Term{"0", SInt}))
 	res := e.def(v.Name()+fr.suffix, T(SSlice, "(mk_slice %s %s %s %s)", dstArr.S, dstOff.S, newLen.S, ite(fits, T(SInt, "(s_cap %s)", s.S), newCap).S))
@@ -404,17 +420,22 @@ func (e *Enc) appendOp(fr *Frame, v *ssa.Call, cc *ssa.CallCommon, st *State, re
 	//   other indices: unchanged (in place) / unconstrained (fresh)
 	na := e.fresh("apparrv", inner)
 	oldS := sel(mem, T(SInt, "(s_arr %s)", s.S), inner)
-	e.assume(tTrue, T(SBool, "(forall ((k Int)) (! (=> (and (<= 0 k) (< k (s_len %s))) (= (select %s (+ %s k)) (select %s (+ (s_off %s) k)))) :pattern ((select %s (+ %s k)))))",
-		s.S, na.S, dstOff.S, oldS.S, s.S, na.S, dstOff.S))
+	lo := e.def("applo", T(SInt, "(+ %s (s_len %s))", dstOff.S, s.S))
+	// kept prefix: A'[j] = old s[j - dstOff]   for dstOff <= j < dstOff + len(s)
+	e.assume(tTrue, T(SBool, "(forall ((j Int)) (! (=> (and (<= %s j) (< j %s)) (= (select %s j) (select %s (+ (s_off %s) (- j %s))))) :pattern ((select %s j))))",
+		dstOff.S, lo.S, na.S, oldS.S, s.S, dstOff.S, na.S))
 	if !isStr {
 		src := sel(mem, srcArr, inner)
-		// single element appends are common: give the ground instance directly
-		e.assume(tTrue, T(SBool, "(forall ((k Int)) (! (=> (and (<= 0 k) (< k %s)) (= (select %s (+ %s (s_len %s) k)) (select %s (+ %s k)))) :pattern ((select %s (+ %s (s_len %s) k)))))",
-			n.S, na.S, dstOff.S, s.S, src.S, srcOff.S, na.S, dstOff.S, s.S))
-		e.assume(tTrue, T(SBool, "(=> (>= %s 1) (= (select %s (+ %s (s_len %s))) (select %s %s)))", n.S, na.S, dstOff.S, s.S, src.S, srcOff.S))
+		// appended part: A'[j] = src[j - lo]   for lo <= j < lo + n
+		e.assume(tTrue, T(SBool, "(forall ((j Int)) (! (=> (and (<= %s j) (< j (+ %s %s))) (= (select %s j) (select %s (+ %s (- j %s))))) :pattern ((select %s j))))",
+			lo.S, lo.S, n.S, na.S, src.S, srcOff.S, lo.S, na.S))
+	} else {
+		e.assume(tTrue, T(SBool, "(forall ((j Int)) (! (=> (and (<= %s j) (< j (+ %s %s))) (= (select %s j) (str_at %s (- j %s)))) :pattern ((select %s j))))",
+			lo.S, lo.S, n.S, na.S, arg1.S, lo.S, na.S))
 	}
-	e.assume(tTrue, T(SBool, "(=> %s (forall ((k Int)) (! (=> (or (< k (+ %s (s_len %s))) (>= k (+ %s %s))) (= (select %s k) (select %s k))) :pattern ((select %s k)))))",
-		fits.S, dstOff.S, s.S, dstOff.S, newLen.S, na.S, oldS.S, na.S))
+	// in place: everything outside [dstOff, lo + n) is untouched
+	e.assume(tTrue, T(SBool, "(=> %s (forall ((j Int)) (! (=> (or (< j %s) (>= j (+ %s %s))) (= (select %s j) (select %s j))) :pattern ((select %s j)))))",
+		fits.S, dstOff.S, lo.S, n.S, na.S, oldS.S, na.S))
 	e.heapSet(st, mk, store(mem, dstArr, na))
 }
 
@@ -438,13 +459,13 @@ func (e *Enc) copyOp(fr *Frame, v *ssa.Call, cc *ssa.CallCommon, st *State, reac
 	na := e.fresh("copyarr", inner)
 	if src.Sort != SStr {
 		oldS := sel(mem, T(SInt, "(s_arr %s)", src.S), inner)
-		e.assume(tTrue, T(SBool, "(forall ((k Int)) (! (=> (and (<= 0 k) (< k %s)) (= (select %s (+ (s_off %s) k)) (select %s (+ (s_off %s) k)))) :pattern ((select %s (+ (s_off %s) k)))))",
-			n.S, na.S, dst.S, oldS.S, src.S, na.S, dst.S))
+		e.assume(tTrue, T(SBool, "(forall ((j Int)) (! (=> (and (<= (s_off %s) j) (< j (+ (s_off %s) %s))) (= (select %s j) (select %s (+ (s_off %s) (- j (s_off %s)))))) :pattern ((select %s j))))",
+			dst.S, dst.S, n.S, na.S, oldS.S, src.S, dst.S, na.S))
 	} else {
-		e.assume(tTrue, T(SBool, "(forall ((k Int)) (! (=> (and (<= 0 k) (< k %s)) (= (select %s (+ (s_off %s) k)) (str_at %s k))) :pattern ((select %s (+ (s_off %s) k)))))",
-			n.S, na.S, dst.S, src.S, na.S, dst.S))
+		e.assume(tTrue, T(SBool, "(forall ((j Int)) (! (=> (and (<= (s_off %s) j) (< j (+ (s_off %s) %s))) (= (select %s j) (str_at %s (- j (s_off %s))))) :pattern ((select %s j))))",
+			dst.S, dst.S, n.S, na.S, src.S, dst.S, na.S))
 	}
-	e.assume(tTrue, T(SBool, "(forall ((k Int)) (! (=> (or (< k (s_off %s)) (>= k (+ (s_off %s) %s))) (= (select %s k) (select %s k))) :pattern ((select %s k))))",
+	e.assume(tTrue, T(SBool, "(forall ((j Int)) (! (=> (or (< j (s_off %s)) (>= j (+ (s_off %s) %s))) (= (select %s j) (select %s j))) :pattern ((select %s j))))",
 		dst.S, dst.S, n.S, na.S, oldD.S, na.S))
 	e.heapSet(st, mk, store(mem, T(SInt, "(s_arr %s)", dst.S), na))
 }
@@ -477,7 +498,7 @@ func (e *Enc) loopHeader(fr *Frame, h *ssa.BasicBlock, li *loopInfo, st *State, 
 	if fr.con != nil {
 		spec = fr.con.Loops[li.ordinal]
 	}
-	lc := &loopCtx{spec: spec, info: li}
+	lc := &loopCtx{spec: spec, info: li, preSt: st.clone()}
 	fr.hdrEnv[h] = lc
 	prefix := e.topName()
 	if fr.path != "" {
@@ -549,6 +570,9 @@ func (e *Enc) loopEnv(fr *Frame, h *ssa.BasicBlock, st *State, edgeFrom *ssa.Bas
 		old = st
 	}
 	env := &CEnv{e: e, vars: map[string]TT{}, cur: st, old: old, pkg: pkg, guard: tTrue}
+	if lc := fr.hdrEnv[h]; lc != nil {
+		env.pre = lc.preSt
+	}
 	// parameters (entry values)
 	for n, v := range e.paramTerms {
 		if fr.isTop {
@@ -641,12 +665,20 @@ func (e *Enc) backEdge(fr *Frame, from, h *ssa.BasicBlock, cond Term, st *State)
 }
 
 // havocLoopHeaps replaces every heap component that the loop body may write by a fresh constant.
+type memRoot struct {
+	val   ssa.Value // slice value defined outside the loop
+	ptr   ssa.Value // or: field `field` of *ptr (ptr defined outside the loop, field heap not written in the loop)
+	stype types.Type
+	field int
+}
+
 func (e *Enc) havocLoopHeaps(fr *Frame, li *loopInfo, st *State) {
 	keys, all := e.loopWrites(fr, li)
 	if all {
 		e.havocAll(st)
 		return
 	}
+	targets, whole := e.loopMemTargets(fr, li, keys)
 	var ks []string
 	for k := range keys {
 		ks = append(ks, k)
@@ -654,12 +686,196 @@ func (e *Enc) havocLoopHeaps(fr *Frame, li *loopInfo, st *State) {
 	sort.Strings(ks)
 	for _, k := range ks {
 		old := e.heapGet(st, k)
+		if roots, ok := targets[k]; ok && !whole[k] && len(roots) > 0 {
+			// only the arrays the loop stores into change
+			m := old
+			inner := strings.TrimSuffix(strings.TrimPrefix(e.heapSort[k], "(Array Int "), ")")
+			for _, r := range roots {
+				var sl Term
+				if r.val != nil {
+					sl = e.val(fr, r.val)
+				} else {
+					fk, fs, _ := e.fieldKey(r.stype, r.field)
+					sl = sel(e.heapGet(st, fk), e.val(fr, r.ptr), fs)
+				}
+				m = store(m, T(SInt, "(s_arr %s)", sl.S), e.fresh("loop_arr", inner))
+			}
+			st.heaps[k] = e.def("H_"+k+"_loop", m)
+			continue
+		}
 		n := e.fresh("H_"+k+"_loop", e.heapSort[k])
 		if k == "$alloc" {
 			e.assume(tTrue, T(SBool, "(>= %s %s)", n.S, old.S))
 		}
 		st.heaps[k] = n
 	}
+	for _, k := range ks {
+		if k != "$alloc" {
+			if _, targeted := targets[k]; !targeted || whole[k] {
+				e.freshHeapFacts(&State{heaps: st.heaps, base: "\x00loop"}, k, st.heaps[k])
+			}
+		}
+	}
+}
+
+// loopMemTargets: for slice memories written only by direct element stores / copy in the loop's own blocks, the
+// arrays written (as roots evaluable at the header).  whole[k] is set when some write cannot be attributed.
+func (e *Enc) loopMemTargets(fr *Frame, li *loopInfo, keys map[string]bool) (map[string][]memRoot, map[string]bool) {
+	targets := map[string][]memRoot{}
+	whole := map[string]bool{}
+	outside := func(v ssa.Value) bool {
+		ins, ok := v.(ssa.Instruction)
+		if !ok {
+			return true
+		}
+		return ins.Block() == nil || !li.body[ins.Block()] || (ins.Block() == li.header && false)
+	}
+	var root func(v ssa.Value, depth int) *memRoot
+	root = func(v ssa.Value, depth int) *memRoot {
+		if depth > 6 {
+			return nil
+		}
+		if _, isPhi := v.(*ssa.Phi); isPhi {
+			if ins := v.(ssa.Instruction); li.body[ins.Block()] {
+				return nil
+			}
+		}
+		if outside(v) {
+			return &memRoot{val: v}
+		}
+		switch x := v.(type) {
+		case *ssa.Slice:
+			if _, isSl := x.X.Type().Underlying().(*types.Slice); isSl {
+				return root(x.X, depth+1)
+			}
+		case *ssa.UnOp:
+			if fa, ok := x.X.(*ssa.FieldAddr); ok && outside(fa.X) {
+				pt := fa.X.Type().Underlying().(*types.Pointer).Elem()
+				fk, _, _ := e.fieldKey(pt, fa.Field)
+				if !keys[fk] {
+					return &memRoot{ptr: fa.X, stype: pt, field: fa.Field}
+				}
+			}
+		}
+		return nil
+	}
+	add := func(k string, v ssa.Value) {
+		if r := root(v, 0); r != nil {
+			for _, o := range targets[k] {
+				if o.val == r.val && o.ptr == r.ptr && o.field == r.field {
+					return
+				}
+			}
+			targets[k] = append(targets[k], *r)
+		} else {
+			whole[k] = true
+		}
+	}
+	for _, b := range fr.fn.Blocks {
+		if !li.body[b] {
+			continue
+		}
+		for _, ins := range b.Instrs {
+			switch x := ins.(type) {
+			case *ssa.Store:
+				if ia, ok := x.Addr.(*ssa.IndexAddr); ok {
+					if sl, ok := ia.X.Type().Underlying().(*types.Slice); ok {
+						add(e.memKey(e.sortOf(sl.Elem())), ia.X)
+						continue
+					}
+				}
+				// other stores: if they may touch a slice memory, it is whole
+				tmp := map[string]bool{}
+				e.storeKeys(x.Addr, tmp)
+				for k := range tmp {
+					if strings.HasPrefix(k, "M:") {
+						whole[k] = true
+					}
+				}
+			case ssa.CallInstruction:
+				cc := x.Common()
+				if bi, ok := cc.Value.(*ssa.Builtin); ok {
+					switch bi.Name() {
+					case "copy":
+						add(e.memKey(e.sortOf(cc.Args[0].Type().Underlying().(*types.Slice).Elem())), cc.Args[0])
+					case "append":
+						whole[e.memKey(e.sortOf(cc.Args[0].Type().Underlying().(*types.Slice).Elem()))] = true
+					}
+					continue
+				}
+				// any other call that may write slice memories makes them whole
+				sub := map[string]bool{}
+				e.callWrites(fr, cc, sub)
+				for k := range sub {
+					if strings.HasPrefix(k, "M:") || k == "*" {
+						if k == "*" {
+							for kk := range keys {
+								whole[kk] = true
+							}
+						} else {
+							whole[k] = true
+						}
+					}
+				}
+			case *ssa.MakeSlice:
+				// fresh arrays are zero-initialised by the allocation itself; allocation inside a loop makes the memory whole
+				whole[e.memKey(e.sortOf(x.Type().Underlying().(*types.Slice).Elem()))] = true
+			case *ssa.Alloc:
+				if at, ok := x.Type().Underlying().(*types.Pointer).Elem().Underlying().(*types.Array); ok {
+					whole[e.memKey(e.sortOf(at.Elem()))] = true
+				}
+			case *ssa.Convert:
+				if e.sortOf(x.Type()) == SSlice && e.sortOf(x.X.Type()) == SStr {
+					whole[e.memKey(SInt)] = true
+				}
+			}
+		}
+	}
+	return targets, whole
+}
+
+// callWrites: heap keys a call may write ("*" = everything), using contracts or a scan of inlinable callees.
+func (e *Enc) callWrites(fr *Frame, cc *ssa.CallCommon, keys map[string]bool) {
+	var c *Contract
+	var callee *ssa.Function
+	if cc.IsInvoke() {
+		c = e.w.CS.Funcs[ifaceMethodKey(cc)]
+	} else if callee = cc.StaticCallee(); callee != nil {
+		c = e.w.CS.Funcs[callee.String()]
+	}
+	switch {
+	case c != nil && !c.Inline:
+		if c.ModAll {
+			keys["*"] = true
+		}
+		for _, m := range c.Modifies {
+			for _, k := range e.modKeys(m, c) {
+				keys[k] = true
+			}
+		}
+	case callee != nil && callee.Blocks != nil:
+		// conservative: everything the callee's body can write
+		li := &loopInfo{body: nil}
+		_ = li
+		sub, all := e.funcWrites(callee, fr.depth+1)
+		if all {
+			keys["*"] = true
+		}
+		for k := range sub {
+			keys[k] = true
+		}
+	default:
+		keys["*"] = true
+	}
+}
+
+func (e *Enc) funcWrites(fn *ssa.Function, depth int) (map[string]bool, bool) {
+	fake := &Frame{fn: fn, depth: depth}
+	body := map[*ssa.BasicBlock]bool{}
+	for _, b := range fn.Blocks {
+		body[b] = true
+	}
+	return e.loopWrites(fake, &loopInfo{body: body})
 }
 
 // loopWrites: heap keys possibly written by the loop body (conservative).
